@@ -9,7 +9,95 @@ LEVEL_TEXT = ('Abstract interpretation of PhaseShift.transform in an interval do
               ' Plus exact rational algebra on PhaseShift.compute: circular gaps (wrap gap decided piecewise for distinct and coincident coordinates), centre opposite the midpoint of argmax(gaps), also for vectorised (axis-0) forms; and a store-rounding model for columns of unknown dtype.')
 
 
+def rule_M7(ctx, rid='M7'):
+    """The periodic index set is data, not a flag: index 0 is a legal (and the most common)
+    entry, so no code may decide anything by the truth value of the indices - `np.any([0])` is
+    False - nor by the truth value of the array itself.  Presence is asked with `is None` or
+    `len()`."""
+    import ast
+    from ..exprs import dotted, unparse, walk_no_nested
+    ctx.rule(rid, 'the periodic index set is never tested by value truthiness (np.any / np.all / '
+             'bool / `if periodic`): index 0 is a legal entry; presence is `is None` or `len()`')
+    n = 0
+
+    def is_periodic(e):
+        d = dotted(e) or ''
+        return d.split('.')[-1] == 'periodic'
+    for q, f in sorted(ctx.program.functions.items()):
+        hits = []
+        for x in walk_no_nested(f.node):
+            if isinstance(x, ast.Call) and dotted(x.func) in (
+                    'np.any', 'np.all', 'any', 'all', 'bool', 'np.count_nonzero',
+                    'np.sum', 'sum') and x.args and is_periodic(x.args[0]):
+                hits.append(x)
+            tests = []
+            if isinstance(x, (ast.If, ast.While, ast.IfExp)):
+                tests.append(x.test)
+            if isinstance(x, ast.BoolOp):
+                tests += list(x.values)
+            if isinstance(x, ast.UnaryOp) and isinstance(x.op, ast.Not):
+                tests.append(x.operand)
+            hits += [t for t in tests if is_periodic(t)]
+        mentions = any(isinstance(x, (ast.Name, ast.Attribute)) and is_periodic(x)
+                       for x in walk_no_nested(f.node))
+        if not mentions:
+            continue
+        n += 1
+        ctx.ob(rid, '%s:periodic-not-tested-by-value' % q, not hits,
+               f.where(hits[0]) if hits else f.where(),
+               'the index set is only asked for presence (`is None`, `len`)' if not hits else
+               '`%s` decides by the truth value of the indices: periodic=[0] (the first '
+               'parameter) is falsy and is treated as "no periodic parameter" - the mode that '
+               'wraps around in that coordinate is then not made contiguous'
+               % unparse(hits[0])[:50])
+    ctx.require(n >= 3, 'M7: only %d functions mention the periodic index set (floor 3)' % n)
+    return n
+
+
+def rule_M8c(ctx, rid='M8'):
+    """The shift is computed from the construction points of the bound: the row selection handed
+    to PhaseShift.compute is the selection the outer union is built from (after the shift) -
+    the very points whose largest gap has to lie across the boundary."""
+    import ast
+    from ..cfg import cfg_of
+    from ..exprs import dotted, unparse, walk_no_nested
+    f = ctx.program.func('NautilusBound.compute')
+    cfg = cfg_of(f)
+
+    def selection(arg, nid):
+        """text of the row selector of `points[<selector>]`, locals resolved one level."""
+        if isinstance(arg, ast.Subscript) and isinstance(arg.value, ast.Name):
+            sl = arg.slice
+            if isinstance(sl, ast.Name):
+                ds = cfg.defs_at(nid, sl.id)
+                if len(ds) == 1 and isinstance(cfg.nodes[next(iter(ds))].ast, ast.Assign):
+                    return unparse(cfg.nodes[next(iter(ds))].ast.value)
+                return None      # several definitions: the selection depends on the path
+            return unparse(sl)
+        return None
+    shifts = [c for c in walk_no_nested(f.node) if isinstance(c, ast.Call) and
+              dotted(c.func) == 'PhaseShift.compute' and c.args and cfg.has(c)]
+    unions = [c for c in walk_no_nested(f.node) if isinstance(c, ast.Call) and
+              dotted(c.func) == 'Union.compute' and c.args and cfg.has(c)]
+    ctx.require(shifts and unions, 'NautilusBound.compute: PhaseShift.compute / Union.compute '
+                'calls not found')
+    su = {selection(c.args[0], cfg.node_of(c).id) for c in unions}
+    for c in shifts:
+        ss = selection(c.args[0], cfg.node_of(c).id)
+        ok = ss is not None and su == {ss}
+        ctx.ob(rid, 'NautilusBound.compute:shift-from-construction-points', ok, f.where(c),
+               'the phase shift is computed from the rows `%s`, the rows the unions are built '
+               'from' % ss if ok else
+               'the phase shift is computed from `%s` but the unions from %s: the largest gap of '
+               'the construction points need not lie across the boundary (e.g. points tied at '
+               'the likelihood threshold are left out when the seam is placed and then cut by it)'
+               % (ss if ss is not None else 'a selection that depends on the path', sorted(
+                   x for x in su if x)))
+
+
 def run(ctx):
+    rule_M7(ctx)
+    rule_M8c(ctx)
     n = rule_M6(ctx)
     # where the shift is applied: forward on entry to contains(), inverse exactly once on
     # exit from sample() (also for proposals produced by pool workers)
